@@ -144,7 +144,7 @@ func canonObserved(nodes map[int]hc.Event, a hc.Arg) string {
 
 func checkC05(c *Ctx) error {
 	c.Ev = evidence.New("C05", c.Tier, c.Seed, "exploration",
-		"operator tables: 1-3 levels, each level @left or @right, 1-2 binary operators per level, atoms, optional parentheses, optional call syntax in a lower (unqualified) rule, optionally below a @list start rule; inputs: the shortest sentences plus random operator/operand chains up to 25 tokens. Runtime oracle: the tree built by the real actions (rebuilt from the recorded action log) must equal the grouping of a precedence-climbing parser over the same table. Table oracle (volume, through the lr1 hook): every cell decided by equal-level associativity must shift for @right and reduce for @left; in tables with an operator-shaped alternative that carries no qualifier (prefix, postfix, index or binary) the cells in which it meets the qualified ones must keep all their candidate actions (unqualified alternatives take no part in precedence resolution). Non-trivial: inputs with at least two binary operators; distinct by table+input.")
+		"operator tables: 1-3 levels, each level @left or @right, 1-2 binary operators per level, atoms, optional parentheses, optional call syntax in a lower (unqualified) rule, optionally below a @list start rule; inputs: the shortest sentences plus random operator/operand chains up to 25 tokens. Runtime oracle: the tree built by the real actions (rebuilt from the recorded action log) must equal the grouping of a precedence-climbing parser over the same table. Table oracle (volume, through the lr1 hook): every cell decided by equal-level associativity must shift for @right and reduce for @left; in tables with an operator-shaped alternative that carries no qualifier (prefix, postfix, index or binary) the cells in which it meets the qualified ones must keep all their candidate actions (unqualified alternatives take no part in precedence resolution), and so must cells whose shift is wanted by alternatives of different levels. Non-trivial: inputs with at least two binary operators; distinct by table+input.")
 	c.Ev.Assumptions = []string{
 		"precedence climbing: higher n binds tighter; equal level: @left groups left-to-right, @right right-to-left",
 		"tables whose shifting productions carry different levels or whose levels mix associativity are skipped (unspecified)",
@@ -162,7 +162,9 @@ func checkC05(c *Ctx) error {
 				// "unqualified alternatives are unaffected": an operator-shaped
 				// alternative without a qualifier takes no part in precedence
 				// resolution, its conflicts with the qualified ones stay
-				tw = []string{"unqualified-prefix", "unqualified-postfix", "unqualified-op"}[r.Intn(3)]
+				// likewise an operator that two alternatives of different
+				// levels both want to shift: no level decides, the cell stays
+				tw = []string{"unqualified-prefix", "unqualified-postfix", "unqualified-op", "mixed-shift-levels"}[r.Intn(4)]
 			}
 			es := specgen.ExprGrammar(r, tw)
 			cf := es.G.Desugar(false)
@@ -182,7 +184,11 @@ func checkC05(c *Ctx) error {
 					diff = "the table is reported free of conflicts"
 				}
 				if diff != "" {
-					c.Violation("unqualified-alternative-took-part-in-precedence/"+tw, &Replay{Why: "lr1.ConstructLALR: " + diff, Files: map[string]string{"g.lox": loxOf(es.G)}})
+					kind := "unqualified-alternative-took-part-in-precedence/"
+					if tw == "mixed-shift-levels" {
+						kind = "cell-settled-although-the-shifting-alternatives-disagree-on-the-level/"
+					}
+					c.Violation(kind+tw, &Replay{Why: "lr1.ConstructLALR: " + diff, Files: map[string]string{"g.lox": loxOf(es.G)}})
 				}
 				continue
 			}
